@@ -170,13 +170,13 @@ type memStream struct {
 	mu       sync.Mutex
 }
 
-func (s *memStream) Protocol() protocol.ID              { return s.proto }
-func (s *memStream) Conn() network.Conn                 { return &memConn{remote: s.remote} }
-func (s *memStream) SetDeadline(time.Time) error        { return nil }
-func (s *memStream) SetReadDeadline(time.Time) error    { return nil }
-func (s *memStream) SetWriteDeadline(time.Time) error   { return nil }
-func (s *memStream) Reset() error                       { return s.Close() }
-func (s *memStream) CloseRead() error                   { return nil }
+func (s *memStream) Protocol() protocol.ID                        { return s.proto }
+func (s *memStream) Conn() network.Conn                           { return &memConn{remote: s.remote} }
+func (s *memStream) SetDeadline(time.Time) error                  { return nil }
+func (s *memStream) SetReadDeadline(time.Time) error              { return nil }
+func (s *memStream) SetWriteDeadline(time.Time) error             { return nil }
+func (s *memStream) Reset() error                                 { return s.Close() }
+func (s *memStream) CloseRead() error                             { return nil }
 func (s *memStream) ResetWithError(network.StreamErrorCode) error { return s.Close() }
 
 func (s *memStream) Write(b []byte) (int, error) {
